@@ -459,6 +459,7 @@ void Engine<Policy>::do_call(const std::vector<std::string>& tok, bool follow_ne
         }
     }
     g_ran.clear();
+    g_next_null = false;
     g_follow_next = follow_next;
     std::string saved;
     saved.swap(g_out);
@@ -486,7 +487,7 @@ void Engine<Policy>::do_call(const std::vector<std::string>& tok, bool follow_ne
         for (auto& r : g_ran) {
             chain.push_back(defid(r));
         }
-        os << "ran " << list(chain) << (ok ? " end" : " " + err);
+        os << "ran " << list(chain) << (g_next_null ? " next-null" : ok ? " end" : " " + err);
     } else if (ok) {
         if (g_ran.size() == 1) {
             os << "ran " << defid(g_ran[0]);
@@ -691,6 +692,12 @@ void Engine<Policy>::do_decode() {
         for (auto& m : Policy::methods) {
             for (long i = 0; i < 2 * m.arity() - 1; ++i) {
                 m.slots_strides_ptr[i] = 9999;
+            }
+            // the definitions' `next` cells are zero-initialised statics
+            for (auto& spec : m.specs) {
+                if (spec.next) {
+                    *spec.next = nullptr;
+                }
             }
         }
         bool ok = guarded(*this, "decode ", [&] { decode_dispatch_data<Policy>(dd); });
